@@ -216,43 +216,46 @@ def DecInteger (sci : Char) (s : Str) : Prop := ∃ p : IntParts, p.WF ∧ s = p
 /-! ## executable form of the grammars (the oracle the driver evaluates on the implementation's
 answers; `Lemmas/Number.lean` proves `parseDecimal s = some p ↔ p.WF ∧ s = p.render`) -/
 
-def parseDecimal (dec sci : Char) (s : Str) : Option DecParts :=
-  let (neg, s1) := match s with
-    | '-' :: r => (true, r)
-    | _ => (false, s)
-  let ip := s1.takeWhile isDigit
-  let s2 := s1.dropWhile isDigit
-  let (hasDec, fp, s3) := match s2 with
-    | c :: r => if c == dec then (true, r.takeWhile isDigit, r.dropWhile isDigit) else (false, [], s2)
-    | [] => (false, [], [])
+/-- exponent after the exponent mark: optional sign, then one or more digits to the end -/
+def parseExp (r : Str) : Option (Option Char × Str) :=
+  match r with
+  | '-' :: t => if !t.isEmpty && t.all isDigit then some (some '-', t) else none
+  | '+' :: t => if !t.isEmpty && t.all isDigit then some (some '+', t) else none
+  | _ => if !r.isEmpty && r.all isDigit then some (none, r) else none
+
+def parseTail (sci : Char) (neg : Bool) (ip : Str) (hasDec : Bool) (fp s3 : Str) : Option DecParts :=
   if ip.isEmpty && fp.isEmpty then none
   else match s3 with
     | [] => some ⟨neg, ip, hasDec, fp, none⟩
-    | c :: r =>
-      if c == sci then
-        let (sg, r1) := match r with
-          | '-' :: t => (some '-', t)
-          | '+' :: t => (some '+', t)
-          | _ => (none, r)
-        if !r1.isEmpty && r1.all isDigit then some ⟨neg, ip, hasDec, fp, some (sg, r1)⟩ else none
-      else none
+    | c :: r => if c == sci then (parseExp r).map (fun e => ⟨neg, ip, hasDec, fp, some e⟩) else none
+
+def parseUnsigned (dec sci : Char) (neg : Bool) (s1 : Str) : Option DecParts :=
+  match s1.dropWhile isDigit with
+  | [] => parseTail sci neg (s1.takeWhile isDigit) false [] []
+  | c :: r =>
+    if c == dec then parseTail sci neg (s1.takeWhile isDigit) true (r.takeWhile isDigit) (r.dropWhile isDigit)
+    else parseTail sci neg (s1.takeWhile isDigit) false [] (c :: r)
+
+def parseDecimal (dec sci : Char) (s : Str) : Option DecParts :=
+  match s with
+  | '-' :: r => parseUnsigned dec sci true r
+  | _ => parseUnsigned dec sci false s
+
+def parseIntExp (r : Str) : Option (Bool × Str) :=
+  match r with
+  | '+' :: t => if !t.isEmpty && t.all isDigit then some (true, t) else none
+  | _ => if !r.isEmpty && r.all isDigit then some (false, r) else none
+
+def parseIntUnsigned (sci : Char) (neg : Bool) (s1 : Str) : Option IntParts :=
+  if (s1.takeWhile isDigit).isEmpty then none
+  else match s1.dropWhile isDigit with
+    | [] => some ⟨neg, s1.takeWhile isDigit, none⟩
+    | c :: r => if c == sci then (parseIntExp r).map (fun e => ⟨neg, s1.takeWhile isDigit, some e⟩) else none
 
 def parseInteger (sci : Char) (s : Str) : Option IntParts :=
-  let (neg, s1) := match s with
-    | '-' :: r => (true, r)
-    | _ => (false, s)
-  let ip := s1.takeWhile isDigit
-  let s2 := s1.dropWhile isDigit
-  if ip.isEmpty then none
-  else match s2 with
-    | [] => some ⟨neg, ip, none⟩
-    | c :: r =>
-      if c == sci then
-        let (plus, r1) := match r with
-          | '+' :: t => (true, t)
-          | _ => (false, r)
-        if !r1.isEmpty && r1.all isDigit then some ⟨neg, ip, some (plus, r1)⟩ else none
-      else none
+  match s with
+  | '-' :: r => parseIntUnsigned sci true r
+  | _ => parseIntUnsigned sci false s
 
 /-- the characters `dec`, `sci` are usable: distinct, not digits, not signs -/
 def SaneChars (dec sci : Char) : Prop :=
